@@ -12,7 +12,7 @@ git apply $D/patch.diff || { echo "$NAME: PATCH DOES NOT APPLY"; git -C /repo wo
 R1=$( /venv/bin/python $D/demo.py > $W/.demo1.log 2>&1; echo $? )
 /venv/bin/python -c "import quantarhei" 2>/dev/null || echo "$NAME: IMPORT FAILS"
 if [ "$3" != "nosuite" ]; then
-/venv/bin/python -m pytest -q -p no:cacheprovider --timeout=900 --continue-on-collection-errors --ignore=tests/matplotlib > $W/.suite.log 2>&1
+OMP_NUM_THREADS=2 OPENBLAS_NUM_THREADS=2 MKL_NUM_THREADS=2 /venv/bin/python -m pytest -q -p no:cacheprovider --timeout=900 --continue-on-collection-errors --ignore=tests/matplotlib > $W/.suite.log 2>&1
 S=$(tail -1 $W/.suite.log)
 F=$(grep -E "^(FAILED|ERROR)" $W/.suite.log | sed 's/ - .*//' | sort | md5sum | cut -c1-8)
 else S="(suite skipped)"; F=-; fi
